@@ -136,7 +136,7 @@ func (encryptor *QueryDataEncryptor) encryptInsertQuery(ctx context.Context, ins
 func (encryptor *QueryDataEncryptor) encryptExpression(ctx context.Context, expr sqlparser.Expr, schema config.TableSchema, columnName string, bindPlaceholder map[int]config.ColumnEncryptionSetting) (bool, error) {
 	if schema.NeedToEncrypt(columnName) {
 		setting := schema.GetColumnEncryptionSettings(columnName)
-		if sqlVal, ok := expr.(*sqlparser.SQLVal); ok {
+		if sqlVal, ok := unwrapValue(expr).(*sqlparser.SQLVal); ok {
 			placeholderIndex, err := ParsePlaceholderIndex(sqlVal)
 			if err == nil {
 				bindPlaceholder[placeholderIndex] = setting
@@ -167,6 +167,21 @@ func (encryptor *QueryDataEncryptor) hasTablesToEncrypt(tables []*base.AliasedTa
 		}
 	}
 	return false
+}
+
+// unwrapValue returns the value below the wrappers UpdateExpressionValue looks through: parentheses and the
+// _binary introducer directly in front of a value. A placeholder written as `(?)` or `_binary ?` was not
+// recognized and its parameter reached the database in the clear.
+func unwrapValue(expr sqlparser.Expr) sqlparser.Expr {
+	switch val := expr.(type) {
+	case *sqlparser.ParenExpr:
+		return unwrapValue(val.Expr)
+	case *sqlparser.UnaryExpr:
+		if sqlVal, ok := val.Expr.(*sqlparser.SQLVal); ok && strings.TrimSpace(val.Operator) == "_binary" {
+			return sqlVal
+		}
+	}
+	return expr
 }
 
 // schemaKnowsColumn tells whether the config of the table lists the column (as encrypted or in `columns`)
@@ -507,7 +522,7 @@ func (encryptor *QueryDataEncryptor) getInsertPlaceholders(ctx context.Context, 
 					logger.WithFields(logrus.Fields{"value_index": i, "column_count": len(columns)}).Warningln("Amount of values in INSERT bigger than column count")
 					continue
 				}
-				switch value := value.(type) {
+				switch value := unwrapValue(value).(type) {
 				case *sqlparser.SQLVal:
 					err := encryptor.updatePlaceholderMap(boundValuesCount, placeholders, value, columns[i])
 					if err != nil {
@@ -524,7 +539,7 @@ func (encryptor *QueryDataEncryptor) getInsertPlaceholders(ctx context.Context, 
 		if !expr.Name.Qualifier.IsEmpty() && expr.Name.Qualifier.Name.ValueForConfig() != tableName.ValueForConfig() {
 			continue
 		}
-		if value, ok := expr.Expr.(*sqlparser.SQLVal); ok {
+		if value, ok := unwrapValue(expr.Expr).(*sqlparser.SQLVal); ok {
 			if err := encryptor.updatePlaceholderMap(boundValuesCount, placeholders, value, expr.Name.Name.ValueForConfig()); err != nil {
 				return nil, err
 			}
@@ -612,7 +627,7 @@ func (encryptor *QueryDataEncryptor) encryptUpdateValues(ctx context.Context, up
 	//
 	// Walk through SET clauses to find out which placeholders stand for which columns.
 	for _, expr := range update.Exprs {
-		value, ok := expr.Expr.(*sqlparser.SQLVal)
+		value, ok := unwrapValue(expr.Expr).(*sqlparser.SQLVal)
 		if !ok {
 			continue
 		}
